@@ -30,7 +30,7 @@ def build(tier, seed):
         # realisation-prone features get small ranges (CrossHair realises ints used as keys of a
         # real dict and values formatted into text; over an unbounded domain that never finishes)
         if "fstring" in desc:
-            pre += ["0 <= a <= 3", "0 <= b <= 3", "s in ('', 'a', chr(39), 'ab')"]
+            pre += ["0 <= a <= 3", "0 <= b <= 3"] + (["s in ('', 'a', chr(39), 'ab')"] if uses_s else [])
         if "assign_sub" in desc or "dict_set_gen" in desc:
             pre += ["-2 <= b <= 2"]
         t = sce.Template(desc, src, params, " and ".join(pre) or "True", observe="trace+globals", budget=150)
